@@ -15,8 +15,7 @@ bytes), which store method is called (`Get/Set/Delete`, the tail calls `Has/Dele
 value variable a `return` hands out (the zero-valued named result or the decoded value).
 `Iterate` is translated too: the consumer closure is a statement of its own, run once per entry by `iterLoopC` (the underlying
 store's iteration: entries in order, stops when the closure answers `false` or the store fails); the closure's write to the
-captured `innerErr` is an ordinary assignment of an error variable.  `IterateKeys` (the same loop without the value decode) is
-not translated: hand-written model + skeleton obligation + differential run.
+captured `innerErr` is an ordinary assignment of an error variable.  `IterateKeys` is the same with a one-argument closure, run at `V := Unit`.
 -/
 namespace Hive.Typed.SCode
 
@@ -72,6 +71,10 @@ inductive SStmt
   | setE (i : Nat) (e : SEExp)                -- `e_i = e` (the closure's write to the captured `innerErr`)
   | retAdv (b : Bool)                         -- closure: `return false`
   | retCb (k v : Nat)                         -- closure: `return callback(k, v)`
+  -- `IterateKeys` (run at `V := Unit`): the store's key iteration with its consumer closure
+  | iterKeys (keyP : Nat) (consumer : SStmt) (outE : Nat)
+                                              -- `e = t.kv.IterateKeys(prefix, func(key) bool { consumer }, direction...)`
+  | retCb1 (k : Nat)                          -- closure: `return callback(k)`
 deriving Repr
 
 variable {K V : Type}
@@ -175,6 +178,15 @@ def sexec [Inhabited K] [Inhabited V] (KC : Codec K) (VC : Codec V) (F : SFaults
     let acc' := m.acc ++ [(m.kk k, m.v v)]
     if acc'.length = stop then .done ({ m with acc := acc' }.log .cb .nc) (.adv false)
     else .done ({ m with acc := acc' }.log .cb .ok) (.adv true)
+  | .iterKeys kp c oe, m =>
+    if F.kv1 then .cont ((m.setE oe (serrW w (.inj .kv))).log .kvIter .fail)
+    else
+      let r := iterLoopC (sexec KC VC F w key value pfx bwd stop c) F.kvAfter kp 0 (m.st.entries pfx bwd) 0 m
+      .cont (r.1.setE oe (if r.2 then serrW w (.inj .kv) else .nil))
+  | .retCb1 k, m =>
+    let acc' := m.acc ++ [(m.kk k, default)]
+    if acc'.length = stop then .done ({ m with acc := acc' }.log .cb .nc) (.adv false)
+    else .done ({ m with acc := acc' }.log .cb .ok) (.adv true)
 
 def sstart [Inhabited K] [Inhabited V] (st : Store) : SM K V :=
   { st := st, y := fun _ => [], v := fun _ => default, kk := fun _ => default, e := fun _ => .nil, tr := [], ndec := 0, acc := [] }
@@ -204,6 +216,7 @@ structure SProg where
   deletePrefix : SStmt
   clear : SStmt
   iterate : SStmt
+  iterateKeys : SStmt
 
 /-- One operation of the translated code. -/
 def sexecOp [Inhabited K] [Inhabited V] (w : Bool) (P : SProg) (KC : Codec K) (VC : Codec V) (m : Store) (op : SOp K V) (F : SFaults) :
@@ -214,6 +227,11 @@ def sexecOp [Inhabited K] [Inhabited V] (w : Bool) (P : SProg) (KC : Codec K) (V
   | .set k v => sfinish (sexec KC VC F w k v [] false 0 P.set (sstart m))
   | .delete k => sfinish (sexec KC VC F w k default [] false 0 P.delete (sstart m))
   | .iterate pfx bwd stop => sfinishIter (sexec KC VC F w default default pfx bwd stop P.iterate (sstart m))
+
+/-- `IterateKeys` of the translated code: the value type plays no role (`Unit`). -/
+def sexecKeys [Inhabited K] (w : Bool) (P : SProg) (KC : Codec K) (m : Store) (pfx : Bytes) (bwd : Bool) (stop : Nat) (F : SFaults) :
+    SRes K Unit :=
+  sfinishIter (sexec KC ({ enc := fun _ => none, dec := fun _ => none } : Codec Unit) F w default () pfx bwd stop P.iterateKeys (sstart m))
 
 /-- The pass-through methods: resulting store and reported error. -/
 def sexecPass [Inhabited K] [Inhabited V] (w : Bool) (KC : Codec K) (VC : Codec V) (body : SStmt) (m : Store) (pfx : Bytes) (F : SFaults) :
